@@ -186,6 +186,7 @@ func runC07(c *Ctx) {
 	checkClones(c, "clone-parse", "pkg/sql/parser", "Parser", "Parse", parseLoopDeltas)
 	checkClones(c, "clone-tokenize", "pkg/sql/tokenizer", "Tokenizer", "Tokenize", tokenizeDeltas)
 	c07Converters(c, p)
+	dialectAgreement(c, "dialect-agreement", 2, "pkg/gosqlx", "pkg/sql/parser")
 	// delegation
 	tokLoops := map[*ssa.Function]bool{}
 	parseLoops := map[*ssa.Function]bool{}
